@@ -192,7 +192,7 @@ theorem printNum_inert (cfg : Cfg) (n : Num) : ∀ c ∈ printNum cfg n, inert c
 
 theorem strips_kw : Strips "null".toUTF8.toList "null".toUTF8.toList ∧ Strips "true".toUTF8.toList "true".toUTF8.toList ∧
     Strips "false".toUTF8.toList "false".toUTF8.toList := by
-  rw [JD.kw_null, JD.kw_true, JD.kw_false]
+  rw [JD.kw_null_rt, JD.kw_true_rt, JD.kw_false_rt]
   exact ⟨⟨by decide, by decide⟩, ⟨by decide, by decide⟩, ⟨by decide, by decide⟩⟩
 
 theorem Strips.cons' {c : UInt8} {a b : List UInt8} (h : inert c = true) (h' : Strips a b) : Strips (c :: a) (c :: b) :=
